@@ -829,11 +829,11 @@ def parse_args(
         if arg.lower() in FG_COLORS:
             if "fg" in kwargs:
                 raise ValueError("fg specified twice")
-            kwargs["fg"] = FG_COLORS[cast(str, arg)]
+            kwargs["fg"] = FG_COLORS[arg.lower()]
         elif arg.lower().startswith("on_") and arg[3:].lower() in BG_COLORS:
             if "bg" in kwargs:
                 raise ValueError("fg specified twice")
-            kwargs["bg"] = BG_COLORS[cast(str, arg[3:])]
+            kwargs["bg"] = BG_COLORS[arg[3:].lower()]
         elif arg.lower() in STYLES:
             kwargs[arg] = True
         else:
